@@ -206,3 +206,45 @@ def add_mod(work, V, limit=6000):
     return [{'module': 'AddMod', 'cfg': 'MC_AddMod.cfg', 'distinct_states': ok['distinct'], 'violation': ok['violation'], 'queries_replayed_into_code': len(cases), 'drift': drift},
             {'module': 'AddMod', 'cfg': 'MC_AddMod_prefix.cfg (add_mod before the fix)', 'distinct_states': old['distinct'], 'violation': old['violation'], 'expected_violation': 'InBounds or TextIsSlice'},
             {'module': 'AddMod', 'cfg': 'MC_AddMod_adjacent.cfg (outside the listed properties)', 'distinct_states': adj['distinct'], 'violation': adj['violation'], 'expected_violation': 'OnlyAdjacent'}]
+
+
+def digital_value(work, V, tier='thorough'):
+    """DigitalValue.tla: _get_digital_value evaluates every literal written with the culture's own marks to the number
+    written (all strings of up to six characters over {0,1,2,',','.','-'} x en-us, es-es, es-mx, de-de; strings of up
+    to eight characters over {0,1,',','-'} for en-us); the transcription of the code before the sign fix must fail.
+    Every input of the bind configuration (up to five characters, 4 cultures) is evaluated by the real function."""
+    if tier == 'quick':      # the bind configuration (five characters) carries the same invariant
+        ok = lng = {'ok': True, 'distinct': 0, 'violation': None}
+    else:
+        ok = tlc.run(work, 'DigitalValue', cfg='MC_DigitalValue.cfg', timeout=1800)
+        lng = tlc.run(work, 'DigitalValue', cfg='MC_DigitalValue_long.cfg', timeout=1800)
+    old = tlc.run(work, 'DigitalValue', cfg='MC_DigitalValue_prefix.cfg', timeout=1800)
+    b = tlc.run(work, 'DigitalValue', cfg='MC_DigitalValue_bind.cfg', dump=True, timeout=1800)
+    for r, name in ((ok, 'MC_DigitalValue'), (lng, 'MC_DigitalValue_long'), (b, 'MC_DigitalValue_bind')):
+        if not r['ok']:
+            V.note('mechanism-drift: DigitalValue/%s violates %s' % (name, r['violation']))
+    by = {}
+    for st in tlc.read_dump(b['dump'], where='pc = "done"'):
+        by.setdefault(st['cul'], []).append((st['s'], [st['neg'] and (st['int'] != 0 or st['frac'] != 0), st['int'], st['frac']]))
+    cases, want = [], []
+    for cul in sorted(by):
+        items = sorted(by[cul])
+        for i in range(0, len(items), 500):
+            cases.append({'api': 'digitalvalue', 'culture': cul, 'texts': [t for t, _ in items[i:i + 500]]})
+            want.append(items[i:i + 500])
+    obs = pool.run_cases(cases, init_name='number', batch=2, timeout=60.0)
+    drift = n = 0
+    for c, w, o in zip(cases, want, obs):
+        got = o.get('out') or []
+        for (t, exp), g in zip(w, got + [None] * (len(w) - len(got))):
+            n += 1
+            if g != exp:
+                drift += 1
+                if drift <= 3:
+                    V.note('mechanism-drift: _get_digital_value(%r, %s): model %s, code %s' % (t, c['culture'], exp, g))
+    full = [] if tier == 'quick' else [
+            {'module': 'DigitalValue', 'cfg': 'MC_DigitalValue.cfg', 'distinct_states': ok['distinct'], 'violation': ok['violation']},
+            {'module': 'DigitalValue', 'cfg': 'MC_DigitalValue_long.cfg', 'distinct_states': lng['distinct'], 'violation': lng['violation']}]
+    return full + [
+            {'module': 'DigitalValue', 'cfg': 'MC_DigitalValue_prefix.cfg (sign counted in the distance to a separator, before the fix)', 'distinct_states': old['distinct'], 'violation': old['violation'], 'expected_violation': 'MeetsLiteral'},
+            {'module': 'DigitalValue', 'cfg': 'MC_DigitalValue_bind.cfg', 'distinct_states': b['distinct'], 'violation': b['violation'], 'strings_evaluated_by_code': n, 'drift': drift}]
